@@ -198,6 +198,35 @@ class Driver:
         if self.started:
             self.check_state(self.env.state, f'after set_state_representation({name})')
 
+    def op_reinstall(self, other, via):
+        """the representation of the shared outer environment is replaced behind this adapter's back (by plain assignment, or by a second
+        adapter around the same outer environment calling its own setter); this adapter then selects the name it had selected last again:
+        that must install it again"""
+        self.nops += 1
+        outer = self.env.outer_env
+        inner = outer.inner_env
+        if via == 'assign':
+            outer.observation_representation = make_observation_representation(other, inner.observation_space)
+        else:
+            GymEnvironment(outer).set_observation_representation(other)
+        self.env.set_observation_representation(self.obs_name)
+        self.check_spaces()
+        self.last_obs = None
+        self.reinstalls = getattr(self, 'reinstalls', 0) + 1
+        if self.started:
+            self.check_obs(self.env.observation, f'after the outer representation was replaced ({via}: {other}) and {self.obs_name} selected again')
+        if self.state_name is not None:
+            if via == 'assign':
+                outer.state_representation = make_state_representation(other, inner.state_space)
+            else:
+                GymEnvironment(outer).set_state_representation(other)
+            self.env.set_state_representation(self.state_name)
+            self.check_spaces()
+            if self.wrapper is not None:
+                self.wrapper = GymStateWrapper(self.env)
+            if self.started:
+                self.check_state(self.env.state, f'after the outer state representation was replaced ({via}: {other}) and {self.state_name} selected again')
+
     def op_inner(self, kind, i):
         """the wrapped inner environment is public (`env.outer_env.inner_env`) and may be driven directly -- by the user, or by another
         adapter wrapped around the same inner environment; the adapter's reads are views of it and must follow"""
@@ -309,6 +338,8 @@ class Driver:
             cl.append('reordered_actions')
         if getattr(self, 'inner_ops', 0):
             cl.append('inner_driven_directly')
+        if getattr(self, 'reinstalls', 0):
+            cl.append('representation_replaced_then_reselected')
         if self.sibling_ops and self.obs_changes:
             cl.append('sibling_touched' + ('_registry' if self.via_registry else ''))
         if self.predecessor and self.switches:
@@ -358,6 +389,11 @@ def machine(tier, ctx, last):
             self.op('set_state_rep', name)
 
         @built
+        @rule(other=st.sampled_from(NAMES), via=st.sampled_from(['assign', 'second_adapter']))
+        def reinstall(self, other, via):
+            self.op('reinstall', other, via)
+
+        @built
         @rule(kind=st.sampled_from(['step', 'step', 'reset', 'second_adapter']), i=st.integers(0, 7))
         def inner(self, kind, i):
             self.op('inner', kind, i)
@@ -395,13 +431,13 @@ def enum_all(tier, shard, nshards):
             if i % nshards == shard:
                 yield [['init', {'base': n, 'mods': {}}, 7 + i, via], ['reset'], ['step', 0], ['step', 2], ['read'], ['set_obs_rep', 'compact'], ['step', 1], ['step', 5],
                        ['set_state_rep', 'no-overlap'], ['wrapped_step', 0], ['wrapped_reset'], ['wrapped_step', 3], ['set_obs_rep', 'default'], ['step', 4], ['read'], ['reset'], ['step', 0],
-                       ['inner', 'step', 1], ['read'], ['inner', 'second_adapter', 2], ['inner', 'reset', 0], ['step', 3], ['sibling', 'seed', 3], ['sibling', 'step', 1], ['step', 2], ['sibling', 'reset', 0], ['step', 0], ['sibling', 'rep', 2], ['read'], ['step', 1]]
+                       ['reinstall', 'no-overlap', 'assign'], ['read'], ['reinstall', 'compact', 'second_adapter'], ['inner', 'step', 1], ['read'], ['inner', 'second_adapter', 2], ['inner', 'reset', 0], ['step', 3], ['sibling', 'seed', 3], ['sibling', 'step', 1], ['step', 2], ['sibling', 'reset', 0], ['step', 0], ['sibling', 'rep', 2], ['read'], ['step', 1]]
 
 
 CHECKS = [
     Check('adapter_machine', oracle, machine=machine, examples={'quick': 60, 'thorough': 200}, steps={'quick': 30, 'thorough': 50}, shards={'quick': 8, 'thorough': 16},
           rule='rule-based machine (reset, step(i), reads, set_state/observation_representation, state-wrapper reset/step, a sibling instance of the same id touched in between; the wrapped inner environment driven directly or through a second adapter; an environment of the base configuration used earlier when the spaces were extended) on shipped and perturbed configurations (re-ordered action lists), direct and via registered ids, vs. a functionally driven twin',
-          required=['observation_changed', 'representation_switch', 'state_wrapper', 'registry', 'direct', 'reordered_actions', 'sibling_touched_registry', 'predecessor_with_smaller_spaces', 'inner_driven_directly']),
+          required=['observation_changed', 'representation_switch', 'state_wrapper', 'registry', 'direct', 'reordered_actions', 'sibling_touched_registry', 'predecessor_with_smaller_spaces', 'inner_driven_directly', 'representation_replaced_then_reselected']),
     Check('all_shipped_scripted', oracle, enumerate=enum_all, shards={'quick': 8, 'thorough': 8},
           rule='all 22 shipped configurations directly and all 21 registered ids through the registry x a fixed 24-op script covering every adapter operation, including a second live instance of the same id being seeded, stepped, reset and reconfigured in between'),
 ]
